@@ -2,12 +2,20 @@
 
 Space: catalogue of call sites (every public function of the modules the property names
 that takes array-like data) x input layout x size x {no NaN, one NaN} x the two-call
-history (seed numpy.random; call; seed again; call).
+history (seed numpy.random; call; seed again; call); size ladder around powers of two / round
+numbers for every call site whose arguments scale with the size; three-call history
+(call A; call with a different argument of the same shape B; call A again) for the
+call sites of stat/, data/ and gis/.
 Oracle: byte-level snapshot (dtype, shape, strides, values, index/columns) of every
 array / Series / DataFrame argument - and of the base array behind every view - is equal
 before the first call, after the first call and after the second call; Grid arguments
 keep their cell values; the second result equals the first (NaN-aware, recursive).
+Three-call history: the arguments of A and of B are unchanged after every call, the third
+call returns what the first returned (compared with a private copy taken right after the
+first call) and the object returned by the first call still holds that value after the
+other two calls.
 """
+import copy
 import math, pickle
 import numpy as np
 import pandas as pd
@@ -21,7 +29,15 @@ RULE = ("finite catalogue of call sites (name -> argument builders + call) cross
         "are compared at byte level after each call, results compared recursively. A layout the function "
         "rejects with an exception is accepted (counted) but the arguments must still be unchanged and the "
         "second call must raise the same exception type. Non-trivial = the call returned normally. Cases "
-        "are distinct by (site, layout, size, nan, deviation argument).")
+        "are distinct by (site, layout, size, nan, deviation argument). Size ladder: every call site whose "
+        "arguments scale with the size is run again at every ladder size (around powers of two and round "
+        "numbers, 7..1025, thorough ..10001, capped per site where a call is super-linear) in the layouts "
+        "{C-contiguous float64 without and with one NaN, pandas sharing a numpy base (+ strided with NaN, "
+        "thorough)} - the layouts a function can take without a copy - with the same snapshot oracle and "
+        "two-call history. Three-call history (sites of stat/, data/, gis/): arguments A and B (= the data "
+        "patterns of seed and seed+1, same shapes) are built once; call(A), call(B), call(A); all "
+        "snapshots compared after every call, third result against a private deep copy of the first, the "
+        "object returned first against that copy after the later calls.")
 ASSUMPTIONS = [
     "the catalogue lists the functions of the modules named by the property that accept numeric array-like data; pure scalar helpers (ppos, oz_timezone, compute_percentiles), plotting decorators without data arguments and file I/O (Grid.save/load) are not call sites",
     "arguments documented as output buffers are exempt (gutils.points_inside_polygon(inside=...)); methods whose purpose is to change their object (Grid.data setter, Grid.__setitem__, Catchment.delineate_*) may change self, their array arguments are still watched",
@@ -33,9 +49,13 @@ ASSUMPTIONS = [
     "exceptions of any type are treated as 'layout not accepted'",
     "dutils.var2h is driven with a nanosecond-resolution DatetimeIndex (the resolution its wrapper assumes); with the microsecond default of pandas 3 the kernel scans outside its buffers (properties C05/C14) and its outcome depends on heap contents, which is not a C18 matter",
     "extension modules rebuilt from the working tree C sources; Cython wrapper C not re-translated",
+    "size ladder: grids and catchments keep their 6x6 geometry (only index / point arguments of the Grid and Catchment methods scale); sites whose arguments do not depend on the size are not repeated; super-linear sites are capped (LADDER_CAP) and figure-drawing sites use every second ladder size (a call costs ~50 ms whatever the size)",
+    "three-call history: 'returns the same result' is read as a value the caller may keep - a result object that a later, unrelated call overwrites (function returning a module-level buffer) is reported (key ...:history3:earlier-result-overwritten); the result of the middle call B is not judged (C18 does not judge numerical correctness), so a cache that answers B with A's result is only seen by the properties that judge values; state initialised once per process and never updated is not observable inside one worker process",
+    "three-call history: when the first result cannot be deep-copied (no such site today) the comparison uses the live object and the case is counted (history3.result-not-copyable)",
 ]
-TECHNIQUE = ("bounded exhaustive enumeration of call site x input layout x two-call history on the real "
-             "functions; invariance oracle (argument snapshots) and differential oracle (call 1 vs call 2)")
+TECHNIQUE = ("bounded exhaustive enumeration of call site x input layout x size ladder x two-call / three-call "
+             "history on the real functions; invariance oracle (argument snapshots) and differential oracle "
+             "(call 1 vs call 2, call 1 vs call 3 after an unrelated call)")
 
 LAYOUTS = ["c64", "strided", "fortran", "int64", "f32", "pandas"]
 LAYOUTS_THOROUGH = LAYOUTS + ["reversed"]
@@ -48,12 +68,86 @@ def sizes(tier):
     return [12, 40] if tier == "quick" else [12, 31, 120, 365]
 
 
+# size ladder: around powers of two and round numbers (thresholds of fast paths, resampling limits, int overflow)
+LADDER = [7, 8, 9, 15, 16, 17, 31, 32, 33, 63, 64, 65, 100, 127, 128, 129, 255, 256, 257, 500, 501,
+          511, 512, 513, 1000, 1001, 1023, 1024, 1025]
+LADDER_X = [2047, 2048, 2049, 4095, 4096, 4097, 10001]
+# (largest ladder size quick, thorough) of the sites whose cost grows faster than the size
+# (measured: iqr 170 ms, dscore[ensemble] 190 ms, dscore[deterministic] 65 ms, pit 50 ms per case at n = 1025)
+LADDER_CAP = {"metrics.iqr": (513, 1025), "metrics.dscore[ensemble]": (513, 1025),
+              "metrics.dscore[deterministic]": (1025, 2049), "metrics.pit": (1025, 4097),
+              "metrics.absolute_peak_error": (1025, 4097), "dutils.monthly2daily[flat]": (1025, 2049),
+              "dutils.monthly2daily[cubic]": (1025, 2049), "dutils.water_year_end": (1025, 2049)}
+LADDER_LAYOUTS = [("c64", False), ("c64", True), ("pandas", False)]
+HISTORY3_PREFIX = ("metrics.", "sutils.", "armodels.", "transform.", "dutils.", "qualitycontrol.", "signatures.",
+                   "gutils.", "grid.")
+
+
+def ladder_sizes(site, tier):
+    """ladder sizes of one call site (none when its arguments do not depend on the size)"""
+    if not size_dependent(site):
+        return []
+    lad = LADDER if tier == "quick" else LADDER + LADDER_X
+    cap = LADDER_CAP.get(site.name, (1025, 10001))[0 if tier == "quick" else 1]
+    lad = [n for n in lad if n <= cap and n not in sizes(tier)]
+    if site.name.startswith(("putils.ecdfplot", "putils.qqplot", "boxplot.Boxplot.draw", "violinplot.Violin.draw")):
+        # drawing a figure costs ~50 ms whatever the size: every second ladder size (keeps 8, 16, 32, 64, 127,
+        # 129, 256, 500, 511, 513, 1001, 1024 ...)
+        lad = lad[1::2]
+    return lad
+
+
+_SIZE_DEP = {}
+
+
+def size_dependent(site):
+    if site.name not in _SIZE_DEP:
+        def sig(n):
+            out = []
+            for k, sp in sorted(site.build(n, 0, "c64").items()):
+                if isinstance(sp, A):
+                    out.append(tuple(sp.base.shape))
+                elif isinstance(sp.value, (np.ndarray, pd.Index, pd.Series, list, tuple)):
+                    out.append(len(sp.value))
+            return out
+        _SIZE_DEP[site.name] = sig(40) != sig(65)
+    return _SIZE_DEP[site.name]
+
+
+def history3_sizes(site, tier):
+    if not site.name.startswith(HISTORY3_PREFIX):
+        return []
+    ns = [12, 257] if tier == "quick" else [12, 31, 257, 1025]
+    if not size_dependent(site):
+        ns = ns[:1]
+    cap = LADDER_CAP.get(site.name, (1025, 10001))[0 if tier == "quick" else 1]
+    return [n for n in ns if n <= cap]
+
+
 def bound_text(tier, seed):
+    st = all_sites(tier)
+    nlad = sum(1 for x in st if ladder_sizes(x, tier))
+    nh3 = sum(1 for x in st if history3_sizes(x, tier))
     return ("%s: %d call sites x layouts %s x sizes %s x {no NaN, one NaN} x two-call history%s; "
-            "data patterns rotated by seed %d" % (
+            "size ladder %s (per-site caps %s) x layouts %s x two-call history for the %d sites whose arguments "
+            "scale with the size; three-call history (A, B = same shapes other data, A) x sizes %s x layouts %s "
+            "for the %d sites of stat/, data/, gis/; data patterns rotated by seed %d" % (
                 tier, len(catalogue()), LAYOUTS if tier == "quick" else LAYOUTS_THOROUGH, sizes(tier),
                 "" if tier == "quick" else "; plus every single argument alone in each layout (others C-contiguous float64) "
-                "and the transform parameter lattice", seed))
+                "and the transform parameter lattice",
+                LADDER if tier == "quick" else LADDER + LADDER_X,
+                {k: v[0 if tier == "quick" else 1] for k, v in sorted(LADDER_CAP.items())},
+                ["%s%s" % (l, "+NaN" if nn else "") for l, nn in ladder_layouts(tier)], nlad,
+                [12, 257] if tier == "quick" else [12, 31, 257, 1025],
+                history3_layouts(tier), nh3, seed))
+
+
+def ladder_layouts(tier):
+    return LADDER_LAYOUTS if tier == "quick" else LADDER_LAYOUTS + [("strided", True), ("f32", False)]
+
+
+def history3_layouts(tier):
+    return ["c64", "pandas", "strided"] if tier == "quick" else LAYOUTS_THOROUGH
 
 
 # --------------------------------------------------------------------- data patterns
@@ -899,7 +993,36 @@ def prepare(site, case):
     return args, watched
 
 
+def compare_snapshots(ctx, site, case, before, watched, icall, tag, reported, who=""):
+    """snapshot oracle after one call: one finding per changed argument (the most structural change names it)"""
+    changed_here = set()
+    for (lab, s0), (_, obj) in zip(before, watched):
+        try:
+            s1 = snap(obj)
+        except Exception as e:
+            s1 = {"t": "unreadable:%r" % (e,)}
+        diffs = snap_diff(s0, s1, lab)
+        if diffs:
+            # one finding per argument: the most structural change names it
+            diffs.sort(key=lambda d: WHAT_ORDER.index(d[1]) if d[1] in WHAT_ORDER else len(WHAT_ORDER))
+            path, what = diffs[0]
+            changed_here.add(lab)
+            parent = lab.rsplit(".", 1)[0]
+            if not (lab.endswith((".base", ".frame-base")) and parent in changed_here):
+                kind = "grid-cells-changed" if what == "cells" else "argument-mutated"
+                key = "%s:%s:%s.%s:%s" % (site.name, kind, path, what, tag)
+                if key not in reported:
+                    reported.add(key)
+                    ctx.violation(key, case, "%s (n=%d): %sargument %s changed (%s) during call %d; before %s, after %s" % (
+                        site.name, case["n"], who, path, ", ".join(sorted(set(d[1] for d in diffs))), icall,
+                        describe(s0), describe(s1)))
+        if s0.get("unjudged_dtype") is not None and s1.get("unjudged_dtype") != s0.get("unjudged_dtype"):
+            ctx.count("unjudged.grid_dtype_changed.%s" % site.name)
+
+
 def run_case(ctx, site, case):
+    if case.get("history") == 3:
+        return run_case3(ctx, site, case)
     pr = prepare(site, case)
     if pr is None:
         ctx.count("not_applicable.layout=%s" % case["layout"])
@@ -918,33 +1041,14 @@ def run_case(ctx, site, case):
         results.append(res)
         ctx.transitions += 1
         ctx.states += 1
-        changed_here = set()
-        for (lab, s0), (_, obj) in zip(before, watched):
-            try:
-                s1 = snap(obj)
-            except Exception as e:
-                s1 = {"t": "unreadable:%r" % (e,)}
-            diffs = snap_diff(s0, s1, lab)
-            if diffs:
-                # one finding per argument: the most structural change names it
-                diffs.sort(key=lambda d: WHAT_ORDER.index(d[1]) if d[1] in WHAT_ORDER else len(WHAT_ORDER))
-                path, what = diffs[0]
-                changed_here.add(lab)
-                parent = lab.rsplit(".", 1)[0]
-                if not (lab.endswith((".base", ".frame-base")) and parent in changed_here):
-                    kind = "grid-cells-changed" if what == "cells" else "argument-mutated"
-                    key = "%s:%s:%s.%s:%s" % (site.name, kind, path, what, tag)
-                    if key not in mutated_reported:
-                        mutated_reported.add(key)
-                        ctx.violation(key, case, "%s: argument %s changed (%s) during call %d; before %s, after %s" % (
-                            site.name, path, ", ".join(sorted(set(d[1] for d in diffs))), icall, describe(s0), describe(s1)))
-            if s0.get("unjudged_dtype") is not None and s1.get("unjudged_dtype") != s0.get("unjudged_dtype"):
-                ctx.count("unjudged.grid_dtype_changed.%s" % site.name)
+        compare_snapshots(ctx, site, case, before, watched, icall, tag, mutated_reported)
     ctx.states += 1
     ctx.traces += 1
     r1, r2 = results
     ok = r1[0] == "ok"
     ctx.case(ok, outcome=outcome_hash(r1[1]) if ok else hash(r1[1:2]))
+    if case["n"] not in (12, 31, 40, 120, 365):
+        ctx.count("ladder.cases")
     if not ok:
         ctx.count("rejected.%s" % r1[1])
         ctx.count("rejected.layout=%s" % case["layout"])
@@ -952,12 +1056,102 @@ def run_case(ctx, site, case):
         ctx.count("accepted.layout=%s" % case["layout"])
     if r1[0] != r2[0] or (r1[0] == "raise" and r1[1] != r2[1]):
         ctx.violation("%s:not-repeatable:outcome:%s" % (site.name, tag), case,
-                      "%s: first call %s, second call %s" % (site.name, short(r1), short(r2)))
+                      "%s (n=%d): first call %s, second call %s" % (site.name, case["n"], short(r1), short(r2)))
     elif ok:
         st, where = requal(r1[1], r2[1])
         if st == "diff":
             ctx.violation("%s:not-repeatable:%s" % (site.name, tag), case,
-                          "%s: the second call with the same arguments and seed returned a different result at %s" % (site.name, where))
+                          "%s (n=%d): the second call with the same arguments and seed returned a different result at %s" % (
+                              site.name, case["n"], where))
+        elif st == "close":
+            ctx.count("repeat.float_noise_accepted")
+
+
+def private_copy(res):
+    """deep copy of a result (None when it cannot be copied)"""
+    try:
+        return copy.deepcopy(res)
+    except Exception:
+        try:
+            return pickle.loads(pickle.dumps(res))
+        except Exception:
+            return None
+
+
+def run_case3(ctx, site, case):
+    """three-call history: call(A); call(B) with other data of the same shapes; call(A) again"""
+    prA = prepare(site, case)
+    prB = prepare(site, dict(case, seed=case["seed"] + 1))
+    if prA is None or prB is None:
+        ctx.count("not_applicable.layout=%s" % case["layout"])
+        return
+    argsA, watchedA = prA
+    argsB, watchedB = prB
+    tag = "layout=%s:history3" % case["layout"]
+    beforeA = [(lab, snap(o)) for lab, o in watchedA]
+    beforeB = [(lab, snap(o)) for lab, o in watchedB]
+
+    def shapes(bf):
+        return [(lab, s.get("t"), s.get("shape"), s.get("dtype")) for lab, s in bf]
+    if shapes(beforeA) != shapes(beforeB):
+        ctx.count("history3.B-has-other-shapes")
+    if [s for _, s in beforeA] == [s for _, s in beforeB]:
+        ctx.count("history3.B-equals-A(no-seed-dependent-argument)")
+    repA, repB = set(), set()
+
+    def call(args):
+        np.random.seed(RSEED + case["seed"])
+        try:
+            return ("ok", site.call(args))
+        except Exception as e:
+            return ("raise", type(e).__name__, str(e)[:200])
+
+    def watch(icall):
+        ctx.transitions += 1
+        ctx.states += 1
+        compare_snapshots(ctx, site, case, beforeA, watchedA, icall, tag, repA, who="(arguments A) ")
+        compare_snapshots(ctx, site, case, beforeB, watchedB, icall, tag, repB, who="(arguments B) ")
+
+    r1 = call(argsA)
+    watch(1)
+    keep = private_copy(r1[1]) if r1[0] == "ok" else None
+    copied = keep is not None or (r1[0] == "ok" and r1[1] is None)
+    if r1[0] == "ok" and not copied:
+        ctx.count("history3.result-not-copyable")
+        keep = r1[1]
+    rb = call(argsB)
+    watch(2)
+    if r1[0] == "ok" and copied:
+        st, where = requal(keep, r1[1])
+        if st == "diff":
+            ctx.violation("%s:history3:earlier-result-overwritten:%s" % (site.name, "layout=%s" % case["layout"]), case,
+                          "%s (n=%d): the object returned by the first call changed while the function was called with "
+                          "other arguments (at %s)" % (site.name, case["n"], where))
+    r3 = call(argsA)
+    watch(3)
+    ctx.states += 1
+    ctx.traces += 1
+    ok = r1[0] == "ok"
+    ctx.case(ok, outcome=("h3", outcome_hash(r1[1])) if ok else hash(("h3",) + r1[1:2]))
+    ctx.count("history3.cases")
+    if ok and rb[0] == "ok" and requal(keep, rb[1])[0] != "diff":
+        ctx.count("history3.B-result-equals-A-result")
+    if not ok:
+        ctx.count("rejected.%s" % r1[1])
+        ctx.count("rejected.layout=%s" % case["layout"])
+    else:
+        ctx.count("accepted.layout=%s" % case["layout"])
+    if r1[0] != r3[0] or (r1[0] == "raise" and r1[1] != r3[1]):
+        ctx.violation("%s:history3:outcome:layout=%s" % (site.name, case["layout"]), case,
+                      "%s (n=%d): first call %s, the same call after a call with other arguments %s" % (
+                          site.name, case["n"], short(r1), short(r3)))
+    elif ok:
+        st, where = requal(keep, r3[1])
+        if st == "diff":
+            ctx.violation("%s:history3:first-call-not-reproduced:layout=%s" % (site.name, case["layout"]), case,
+                          "%s (n=%d): call(A), call(B), call(A): the third call does not return what the first returned "
+                          "(at %s); B = the same shapes with the data pattern of seed %d" % (
+                              site.name, case["n"], where, case["seed"] + 1))
         elif st == "close":
             ctx.count("repeat.float_noise_accepted")
 
@@ -996,6 +1190,20 @@ def cases_of(site, tier, seed):
                         if lay == "c64":
                             continue
                         yield {"site": site.name, "layout": lay, "n": n, "seed": seed, "nan": False, "only": only}
+    # size ladder (two-call history)
+    for n in ladder_sizes(site, tier):
+        for lay, nan in ladder_layouts(tier):
+            if site.layouts is not None and lay not in site.layouts:
+                continue
+            yield {"site": site.name, "layout": lay, "n": n, "seed": seed, "nan": nan}
+    # three-call history
+    for n in history3_sizes(site, tier):
+        for lay in history3_layouts(tier):
+            if site.layouts is not None and lay not in site.layouts:
+                continue
+            yield {"site": site.name, "layout": lay, "n": n, "seed": seed, "nan": False, "history": 3}
+        if site.layouts is None:
+            yield {"site": site.name, "layout": "c64", "n": n, "seed": seed, "nan": True, "history": 3}
 
 
 def units(tier, seed):
